@@ -264,6 +264,8 @@ def run(run, model):
     run.do(defaults, model)
     run.do(slow, model)
     run.do(debug_only_there, model)
+    from . import c08
+    run.do(c08.define_tables, model, "C15.decoration-time-rejection")
     n = assert_pure(run, model)
     if n < 40:
         raise AnalysisError("only %d assert statements found (60+ confirmed by hand)" % n)
